@@ -174,7 +174,20 @@ theorem mem_upagesOf {pageOf : Nat → Nat} {ts : List Tr} {xp : List Nat} {tr :
 /-- what a successful refetch guarantees about one re-tracked item -/
 def GoodPair (g : G) (tr tr' : Tr) : Prop :=
   tr'.item = tr.item ∧ tr'.ent = tr.ent ∧ tr'.act = tr.act ∧
-  (tr.act ≠ .add → ∃ e, g.db tr.item = some e ∧ e.key = tr.ent.key ∧ e.ver = tr.ent.ver)
+  (tr.act ≠ .add → ∃ e, g.db tr.item = some e ∧ e.key = tr.ent.key ∧ (g.replayChecks tr.act = true → e.ver = tr.ent.ver))
+
+/-- every kind of tracked action is compared with `versionInDB` by the merge replay (the code as it is) -/
+def ChecksAll (g : G) : Prop :=
+  g.replayChecks .get = true ∧ g.replayChecks .add = true ∧ g.replayChecks .update = true ∧ g.replayChecks .remove = true
+
+instance (g : G) : Decidable (ChecksAll g) := by unfold ChecksAll; infer_instance
+
+theorem ChecksAll.all {g : G} (h : ChecksAll g) : ∀ a, g.replayChecks a = true := by
+  intro a; cases a
+  · exact h.1
+  · exact h.2.1
+  · exact h.2.2.1
+  · exact h.2.2.2
 
 theorem refetchStep_some {g : G} {acc : Option (List Tr × List Nat)} {tr : Tr} {out1 : List Tr} {ids1 : List Nat}
     (h : refetchStep g acc tr = some (out1, ids1)) :
@@ -195,7 +208,13 @@ theorem refetchStep_some {g : G} {acc : Option (List Tr × List Nat)} {tr : Tr} 
         split at h
         · rename_i hk
           simp only [Option.some.injEq, Prod.mk.injEq] at h
-          refine ⟨out0, ids0, _, rfl, h.1.symm, ?_, ?_, ?_, fun _ => ⟨e, he, hk.1, hk.2⟩⟩ <;> split <;> rfl
+          refine ⟨out0, ids0, _, rfl, h.1.symm, ?_, ?_, ?_, fun _ => ⟨e, he, hk.1, fun hc => ?_⟩⟩
+          · split <;> rfl
+          · split <;> rfl
+          · split <;> rfl
+          · rcases hk.2 with h' | h'
+            · rw [hc] at h'; cases h'
+            · exact h'
         · exact absurd h (by simp)
 
 theorem refetch_fold {g : G} : ∀ (l : List Tr) (acc : Option (List Tr × List Nat)) (out : List Tr) (ids : List Nat),
@@ -247,7 +266,7 @@ def Refetched (g : G) (t t' : Txn) : Prop :=
   (∀ r ∈ t'.reads, (g.pageOf r.1, g.pver (g.pageOf r.1)) ∈ t'.seen) ∧ ¬ InWindow t'
 theorem plain_of (g : G) {t t' : Txn} (h1 : t'.tracked = t.tracked) (h2 : t'.seen = t.seen) (h3 : ¬ InWindow t') : Plain g t t' :=
   ⟨reads_of_tracked h1, h2, fun h => absurd h h3⟩
-theorem refetched_of {g : G} {t t2 t' : Txn} (h : refetch g t = some t2) (h1 : t'.tracked = t2.tracked) (h2 : t'.seen = t2.seen)
+theorem refetched_of {g : G} {t t2 t' : Txn} (hc : ChecksAll g) (h : refetch g t = some t2) (h1 : t'.tracked = t2.tracked) (h2 : t'.seen = t2.seen)
     (h3 : ¬ InWindow t') : Refetched g t t' := by
   obtain ⟨ha, hb, _, _⟩ := refetch_spec h
   refine ⟨fun r hr => ?_, fun r hr => ?_, h3⟩
@@ -257,7 +276,7 @@ theorem refetched_of {g : G} {t t2 t' : Txn} (h : refetch g t = some t2) (h1 : t
     have hne' : tr.act ≠ .add := by rw [← hg3]; exact hne
     refine ⟨mem_reads.mpr ⟨tr, htr, hne', by rw [hg1, hg2]⟩, ?_⟩
     obtain ⟨e, he1, he2, he3⟩ := hg4 hne'
-    exact ⟨e, by simpa [hg1] using he1, by simpa [hg2] using he2, by simpa [hg2] using he3⟩
+    exact ⟨e, by simpa [hg1] using he1, by simpa [hg2] using he2, by simpa [hg2] using he3 (hc.all _)⟩
   · rw [reads_of_tracked h1] at hr
     obtain ⟨tr', htr', _, rfl⟩ := mem_reads.mp hr
     rw [h2, hb]
@@ -363,7 +382,7 @@ theorem keepsD_commit_finishOk (g : G) (i : Nat) (t : Txn) :
   have k := finishOk_keeps (commitPoint g i t []) i t
   exact ⟨k.db, k.pver, k.pageOf, k.others, k.hist⟩
 
-theorem stepPlock_ok (g : G) (i : Nat) (t : Txn) (hint : List Nat) (hpc : t.pc = .plock) : StepOk g (stepPlock g i t hint) i t := by
+theorem stepPlock_ok (g : G) (hc : ChecksAll g) (i : Nat) (t : Txn) (hint : List Nat) (hpc : t.pc = .plock) : StepOk g (stepPlock g i t hint) i t := by
   unfold stepPlock; simp only
   split
   · refine stepOk_of_keeps (keeps_setTxn _ _ _) (Or.inr (Or.inr (Or.inl ?_)))
@@ -377,7 +396,7 @@ theorem stepPlock_ok (g : G) (i : Nat) (t : Txn) (hint : List Nat) (hpc : t.pc =
         refine stepOk_of_keeps ((keeps_plock g i _).trans (keeps_startLock _ _ _)) (Or.inr (Or.inr (Or.inr ?_)))
         obtain ⟨t', a, b, c, d⟩ := startLock_self { g with plock := fun p => if t.lockKeys.contains p then some i else g.plock p } i t2
         rw [a]
-        have := refetched_of (g := { g with plock := fun p => if t.lockKeys.contains p then some i else g.plock p }) hr b c
+        have := refetched_of (g := { g with plock := fun p => if t.lockKeys.contains p then some i else g.plock p }) hc hr b c
           (by rcases d with d | d
               · exact notWindow_pc d (by decide) (by decide)
               · exact notWindow_pc d (by decide) (by decide))
@@ -412,7 +431,7 @@ theorem stepCheck_ok (g : G) (i : Nat) (t : Txn) (hpc : t.pc = .check) : StepOk 
       rw [setTxn_self]
       exact ⟨(reads_of_tracked (t := { t with tracked := t.tracked.map (checkFlag g i) }) rfl).trans hreads, rfl, fun _ => Or.inl hpc⟩
 
-theorem stepValidate_ok (g : G) (i : Nat) (t : Txn) (hpc : t.pc = .validate) : StepOk g (stepValidate g i t) i t := by
+theorem stepValidate_ok (g : G) (hc : ChecksAll g) (i : Nat) (t : Txn) (hpc : t.pc = .validate) : StepOk g (stepValidate g i t) i t := by
   unfold stepValidate; simp only
   split
   · -- reader
@@ -426,7 +445,7 @@ theorem stepValidate_ok (g : G) (i : Nat) (t : Txn) (hpc : t.pc = .validate) : S
       · rename_i t2 hr
         have k := keeps_setTxn (commitPoint g i t2 []) i (finish t2 .ok)
         refine ⟨k.db, k.pver, k.pageOf, k.others, Or.inl (by rw [setTxn_self]; rfl), Or.inr ⟨_, k.hist, rfl, Or.inr (Or.inr ?_)⟩⟩
-        have := refetched_of (t' := t2) hr rfl rfl (by
+        have := refetched_of (t' := t2) hc hr rfl rfl (by
           obtain ⟨_, _, hp, _⟩ := refetch_spec hr
           exact notWindow_pc (hp.trans hpc) (by decide) (by decide))
         exact ⟨hpc, this.1⟩
@@ -508,7 +527,7 @@ theorem stepBegin_ok (g : G) (i : Nat) (t : Txn) (hint : List Nat) : BeginOk g (
 /-! ### the dispatcher -/
 
 /-- what one scheduler step does, by the park point the transaction was at -/
-theorem step_spec (g : G) (i : Nat) (hint : List Nat) :
+theorem step_spec (g : G) (hc : ChecksAll g) (i : Nat) (hint : List Nat) :
     ((g.txns i).pc = .done ∧ step g i hint = g) ∨
     ((g.txns i).pc = .begin ∧ BeginOk g (step g i hint) i) ∨
     ((g.txns i).pc = .install ∧ InstallOk g (step g i hint) i (g.txns i)) ∨
@@ -521,8 +540,8 @@ theorem step_spec (g : G) (i : Nat) (hint : List Nat) :
   | lget => exact Or.inr (Or.inr (Or.inr ⟨by simp, by simp, by simp, stepLget_ok _ _ _⟩))
   | lset => exact Or.inr (Or.inr (Or.inr ⟨by simp, by simp, by simp, stepLset_ok _ _ _⟩))
   | lverify => exact Or.inr (Or.inr (Or.inr ⟨by simp, by simp, by simp, stepLverify_ok _ _ _ _⟩))
-  | plock => exact Or.inr (Or.inr (Or.inr ⟨by simp, by simp, by simp, stepPlock_ok _ _ _ _ hpc⟩))
-  | validate => exact Or.inr (Or.inr (Or.inr ⟨by simp, by simp, by simp, stepValidate_ok _ _ _ hpc⟩))
+  | plock => exact Or.inr (Or.inr (Or.inr ⟨by simp, by simp, by simp, stepPlock_ok _ hc _ _ _ hpc⟩))
+  | validate => exact Or.inr (Or.inr (Or.inr ⟨by simp, by simp, by simp, stepValidate_ok _ hc _ _ hpc⟩))
   | check => exact Or.inr (Or.inr (Or.inr ⟨by simp, by simp, by simp, stepCheck_ok _ _ _ hpc⟩))
   | ldel k => exact Or.inr (Or.inr (Or.inr ⟨by simp, by simp, by simp, stepLdel_ok _ _ _ _⟩))
 
